@@ -89,7 +89,7 @@ func serveStatsRun(f []string) (string, string) {
 			out = append(out, "invalid-query")
 			continue
 		}
-		w := &recWriter{remote: q.resolver}
+		w := &recWriter{remote: q.resolver, tcp: true}
 		res := func() (s string) {
 			defer func() {
 				if recover() != nil {
